@@ -120,4 +120,566 @@ theorem alignModulo_bridge (e : Nat) (he : e ≤ 16) (r o : BitVec 64)
   rw [alignUp_bridge e he o (by omega)] at h1
   exact Nat.le_antisymm (h1.2.2 _ h2.1 h2.2.1) (h2.2.2 _ h1.1 h1.2.1)
 
+/-! ## `layout_section_parts`: alignment of every part -/
+
+def RecAligned (r : Rec) : Prop := r.fileOff % 2 ^ r.align = 0 ∧ r.memOff % 2 ^ r.align = 0
+
+theorem placePart_aligned (cfg : Config) (s : Sec) (rp : Bool) (m : Nat) (st : PartState) (p : PartIn) :
+    RecAligned (placePart cfg s rp m st p).2 := by
+  unfold placePart RecAligned
+  simp only
+  split
+  · split <;> exact ⟨alignUpN_mod _ _, alignUpN_mod _ _⟩
+  · exact ⟨alignUpN_mod _ _, alignUpN_mod _ _⟩
+
+theorem placeParts_aligned (cfg : Config) (s : Sec) (rp : Bool) (m : Nat) (st : PartState) (ps : List PartIn) :
+    ∀ r ∈ (placeParts cfg s rp m st ps).2, RecAligned r := by
+  induction ps generalizing st with
+  | nil => intro r hr; simp [placeParts] at hr
+  | cons p ps ih =>
+    intro r hr
+    simp only [placeParts, List.mem_cons] at hr
+    rcases hr with h | h
+    · rw [h]; exact placePart_aligned cfg s rp m st p
+    · exact ih _ r h
+
+/-- all part records of a walk, in layout order -/
+def allRecs (out : List (Nat × List Rec)) : List Rec := out.flatMap (·.2)
+
+theorem layoutStep_recs_aligned (cfg : Config) (il : Nat → Bool) (sa : List (Nat × Nat)) (secs : Nat → Sec)
+    (c : Cursor) (e : Event) (sid : Nat) (rs : List Rec)
+    (h : (layoutStep cfg il sa secs c e).2 = some (sid, rs)) : ∀ r ∈ rs, RecAligned r := by
+  unfold layoutStep at h
+  split at h
+  · simp at h
+  · simp at h
+  · split at h
+    · split at h <;> simp at h
+    · simp at h
+  · simp only [Option.some.injEq, Prod.mk.injEq] at h
+    obtain ⟨_, rfl⟩ := h
+    exact placeParts_aligned _ _ _ _ _ _
+
+theorem layoutWalk_aligned (cfg : Config) (il : Nat → Bool) (sa : List (Nat × Nat)) (secs : Nat → Sec)
+    (c : Cursor) (evs : List Event) : ∀ r ∈ allRecs (layoutWalk cfg il sa secs c evs).2, RecAligned r := by
+  induction evs generalizing c with
+  | nil => intro r hr; simp [layoutWalk, allRecs] at hr
+  | cons e es ih =>
+    intro r hr
+    simp only [layoutWalk] at hr
+    cases ho : (layoutStep cfg il sa secs c e).2 with
+    | none =>
+      rw [ho] at hr
+      exact ih _ r hr
+    | some pr =>
+      rw [ho] at hr
+      obtain ⟨sid, rs⟩ := pr
+      simp only [allRecs, List.flatMap_cons, List.mem_append] at hr
+      rcases hr with h | h
+      · exact layoutStep_recs_aligned cfg il sa secs c e sid rs ho r h
+      · exact ih _ r h
+
+/-- **C04 `parts_aligned`.** For every event list, section table, sizes, alignments, page size, locations and
+output kind: every part record produced by `layout_section_parts` has its file offset and its address at a
+multiple of its alignment. -/
+theorem parts_aligned (cfg : Config) (il : Nat → Bool) (secs : Nat → Sec) (evs : List Event) :
+    ∀ r ∈ allRecs (layoutParts cfg il secs evs), RecAligned r := by
+  unfold layoutParts
+  exact layoutWalk_aligned _ _ _ _ _ _
+
+/-! ## Monotone file cursor: file ranges of all parts are disjoint -/
+
+/-- `l` is laid out in ascending, non-overlapping file ranges inside `[lo, hi]`. -/
+def FileSorted (lo hi : Nat) (l : List Rec) : Prop :=
+  lo ≤ hi ∧ (∀ r ∈ l, lo ≤ r.fileOff ∧ r.fileOff + r.fileSize ≤ hi) ∧
+    l.Pairwise (fun a b => a.fileOff + a.fileSize ≤ b.fileOff)
+
+theorem FileSorted.nil (lo hi : Nat) (h : lo ≤ hi) : FileSorted lo hi [] :=
+  ⟨h, by simp, List.Pairwise.nil⟩
+
+theorem FileSorted.append {a b c : Nat} {l1 l2 : List Rec} (h1 : FileSorted a b l1) (h2 : FileSorted b c l2) :
+    FileSorted a c (l1 ++ l2) := by
+  obtain ⟨hab, hb1, hp1⟩ := h1
+  obtain ⟨hbc, hb2, hp2⟩ := h2
+  refine ⟨by omega, ?_, ?_⟩
+  · intro r hr
+    rcases List.mem_append.1 hr with h | h
+    · have := hb1 r h; omega
+    · have := hb2 r h; omega
+  · rw [List.pairwise_append]
+    refine ⟨hp1, hp2, ?_⟩
+    intro x hx y hy
+    have := hb1 x hx; have := hb2 y hy; omega
+
+theorem FileSorted.widen {a a' b b' : Nat} {l : List Rec} (h : FileSorted a b l) (ha : a' ≤ a) (hb : b ≤ b') :
+    FileSorted a' b' l := by
+  obtain ⟨hab, hb1, hp1⟩ := h
+  exact ⟨by omega, fun r hr => by have := hb1 r hr; omega, hp1⟩
+
+theorem placePart_file (cfg : Config) (s : Sec) (rp : Bool) (m : Nat) (st : PartState) (p : PartIn) :
+    st.file ≤ (placePart cfg s rp m st p).2.fileOff ∧
+    (placePart cfg s rp m st p).1.file = (placePart cfg s rp m st p).2.fileOff + (placePart cfg s rp m st p).2.fileSize := by
+  unfold placePart
+  simp only
+  split
+  · split <;> exact ⟨alignUpN_ge _ _, rfl⟩
+  · exact ⟨alignUpN_ge _ _, rfl⟩
+
+theorem placeParts_file (cfg : Config) (s : Sec) (rp : Bool) (m : Nat) (st : PartState) (ps : List PartIn) :
+    FileSorted st.file (placeParts cfg s rp m st ps).1.file (placeParts cfg s rp m st ps).2 := by
+  induction ps generalizing st with
+  | nil => simp only [placeParts]; exact FileSorted.nil _ _ (Nat.le_refl _)
+  | cons p ps ih =>
+    simp only [placeParts]
+    have h := placePart_file cfg s rp m st p
+    have hs : FileSorted st.file (placePart cfg s rp m st p).1.file [(placePart cfg s rp m st p).2] := by
+      refine ⟨by omega, ?_, List.pairwise_singleton _ _⟩
+      intro r hr
+      rw [List.mem_singleton.1 hr]; omega
+    exact FileSorted.append hs (ih _)
+
+theorem layoutStep_file (cfg : Config) (il : Nat → Bool) (sa : List (Nat × Nat)) (secs : Nat → Sec)
+    (c : Cursor) (e : Event) :
+    FileSorted c.file (layoutStep cfg il sa secs c e).1.file
+      (match (layoutStep cfg il sa secs c e).2 with | some pr => pr.2 | none => []) := by
+  unfold layoutStep
+  split
+  · exact FileSorted.nil _ _ (Nat.le_refl _)
+  · exact FileSorted.nil _ _ (Nat.le_refl _)
+  · split
+    · split
+      · exact FileSorted.nil _ _ (alignModuloN_ge _ _ _)
+      · exact FileSorted.nil _ _ (Nat.le_refl _)
+    · exact FileSorted.nil _ _ (Nat.le_refl _)
+  · exact placeParts_file cfg _ _ _ ⟨c.file, _, 0, 0⟩ _
+
+theorem layoutWalk_file (cfg : Config) (il : Nat → Bool) (sa : List (Nat × Nat)) (secs : Nat → Sec)
+    (c : Cursor) (evs : List Event) :
+    FileSorted c.file (layoutWalk cfg il sa secs c evs).1.file (allRecs (layoutWalk cfg il sa secs c evs).2) := by
+  induction evs generalizing c with
+  | nil => simp only [layoutWalk, allRecs, List.flatMap_nil]; exact FileSorted.nil _ _ (Nat.le_refl _)
+  | cons e es ih =>
+    simp only [layoutWalk]
+    have h1 := layoutStep_file cfg il sa secs c e
+    have h2 := ih (layoutStep cfg il sa secs c e).1
+    cases ho : (layoutStep cfg il sa secs c e).2 with
+    | none =>
+      rw [ho] at h1
+      exact FileSorted.widen h2 h1.1 (Nat.le_refl _)
+    | some pr =>
+      rw [ho] at h1
+      simp only [allRecs, List.flatMap_cons]
+      exact FileSorted.append h1 h2
+
+/-- **C04 `parts_disjoint_file`.** For every input of `layout_section_parts` (any output kind, any locations):
+the file ranges of all parts — allocated or not — are pairwise disjoint and ascending in layout order
+(monotone file cursor). -/
+theorem parts_disjoint_file (cfg : Config) (il : Nat → Bool) (secs : Nat → Sec) (evs : List Event) :
+    (allRecs (layoutParts cfg il secs evs)).Pairwise (fun a b => a.fileOff + a.fileSize ≤ b.fileOff) := by
+  unfold layoutParts
+  exact (layoutWalk_file _ _ _ _ _ _).2.2
+
+/-! ## Monotone address cursor: allocated parts are disjoint in memory (locations forward) -/
+
+/-- `l` is laid out in ascending, non-overlapping address ranges inside `[lo, hi]`. -/
+def MemSorted (lo hi : Nat) (l : List Rec) : Prop :=
+  lo ≤ hi ∧ (∀ r ∈ l, lo ≤ r.memOff ∧ r.memOff + r.memSize ≤ hi) ∧
+    l.Pairwise (fun a b => a.memOff + a.memSize ≤ b.memOff)
+
+theorem MemSorted.nil (lo hi : Nat) (h : lo ≤ hi) : MemSorted lo hi [] :=
+  ⟨h, by simp, List.Pairwise.nil⟩
+
+theorem MemSorted.append {a b c : Nat} {l1 l2 : List Rec} (h1 : MemSorted a b l1) (h2 : MemSorted b c l2) :
+    MemSorted a c (l1 ++ l2) := by
+  obtain ⟨hab, hb1, hp1⟩ := h1
+  obtain ⟨hbc, hb2, hp2⟩ := h2
+  refine ⟨by omega, ?_, ?_⟩
+  · intro r hr
+    rcases List.mem_append.1 hr with h | h
+    · have := hb1 r h; omega
+    · have := hb2 r h; omega
+  · rw [List.pairwise_append]
+    refine ⟨hp1, hp2, ?_⟩
+    intro x hx y hy
+    have := hb1 x hx; have := hb2 y hy; omega
+
+theorem MemSorted.widen {a a' b b' : Nat} {l : List Rec} (h : MemSorted a b l) (ha : a' ≤ a) (hb : b ≤ b') :
+    MemSorted a' b' l := by
+  obtain ⟨hab, hb1, hp1⟩ := h
+  exact ⟨by omega, fun r hr => by have := hb1 r hr; omega, hp1⟩
+
+
+theorem placePart_mem (cfg : Config) (s : Sec) (rp : Bool) (m : Nat) (st : PartState) (p : PartIn)
+    (hp : cfg.partialObj = false) (ha : s.alloc = true) :
+    st.mem ≤ (placePart cfg s rp m st p).2.memOff ∧
+    (placePart cfg s rp m st p).1.mem = (placePart cfg s rp m st p).2.memOff + (placePart cfg s rp m st p).2.memSize := by
+  unfold placePart
+  simp only [ha, hp, if_true, Bool.false_eq_true, if_false]
+  exact ⟨alignUpN_ge _ _, trivial⟩
+
+theorem placePart_mem_nonalloc (cfg : Config) (s : Sec) (rp : Bool) (m : Nat) (st : PartState) (p : PartIn)
+    (ha : s.alloc = false) : (placePart cfg s rp m st p).1.mem = st.mem := by
+  unfold placePart
+  simp only [ha, Bool.false_eq_true, if_false]
+
+theorem placeParts_mem (cfg : Config) (s : Sec) (rp : Bool) (m : Nat) (st : PartState) (ps : List PartIn)
+    (hp : cfg.partialObj = false) (ha : s.alloc = true) :
+    MemSorted st.mem (placeParts cfg s rp m st ps).1.mem (placeParts cfg s rp m st ps).2 := by
+  induction ps generalizing st with
+  | nil => simp only [placeParts]; exact MemSorted.nil _ _ (Nat.le_refl _)
+  | cons p ps ih =>
+    simp only [placeParts]
+    have h := placePart_mem cfg s rp m st p hp ha
+    have hs : MemSorted st.mem (placePart cfg s rp m st p).1.mem [(placePart cfg s rp m st p).2] := by
+      refine ⟨by omega, ?_, List.pairwise_singleton _ _⟩
+      intro r hr
+      rw [List.mem_singleton.1 hr]; omega
+    exact MemSorted.append hs (ih _)
+
+theorem placeParts_mem_nonalloc (cfg : Config) (s : Sec) (rp : Bool) (m : Nat) (st : PartState) (ps : List PartIn)
+    (ha : s.alloc = false) : (placeParts cfg s rp m st ps).1.mem = st.mem := by
+  induction ps generalizing st with
+  | nil => simp only [placeParts]
+  | cons p ps ih =>
+    simp only [placeParts]
+    rw [ih, placePart_mem_nonalloc cfg s rp m st p ha]
+
+/-- the records of allocated sections, in layout order -/
+def allocRecs (secs : Nat → Sec) (out : List (Nat × List Rec)) : List Rec :=
+  allRecs (out.filter fun p => (secs p.1).alloc)
+
+theorem locsForward_cons (cfg : Config) (il : Nat → Bool) (sa : List (Nat × Nat)) (secs : Nat → Sec)
+    (c : Cursor) (e : Event) (es : List Event) :
+    locsForward cfg il sa secs c (e :: es) =
+      (stepFwd il secs c e && locsForward cfg il sa secs (layoutStep cfg il sa secs c e).1 es) := by
+  rfl
+
+theorem layoutStep_mem (cfg : Config) (il : Nat → Bool) (sa : List (Nat × Nat)) (secs : Nat → Sec)
+    (c : Cursor) (e : Event) (hp : cfg.partialObj = false) (hf : stepFwd il secs c e = true) :
+    MemSorted c.mem (layoutStep cfg il sa secs c e).1.mem
+      (match (layoutStep cfg il sa secs c e).2 with
+        | some pr => if (secs pr.1).alloc then pr.2 else []
+        | none => []) := by
+  unfold layoutStep
+  unfold stepFwd at hf
+  split
+  · exact MemSorted.nil _ _ (Nat.le_refl _)
+  · exact MemSorted.nil _ _ (Nat.le_refl _)
+  · rename_i id
+    simp only at hf
+    by_cases hl : il id = true
+    · simp only [hl, if_true] at hf ⊢
+      split
+      · rename_i a hpend
+        rw [hpend] at hf
+        exact MemSorted.nil _ _ (by simpa using hf)
+      · exact MemSorted.nil _ _ (alignModuloN_ge _ _ _)
+    · simp only [hl, Bool.false_eq_true, if_false]
+      exact MemSorted.nil _ _ (Nat.le_refl _)
+  · rename_i sid
+    simp only at hf ⊢
+    have hstart : c.mem ≤ (match (secs sid).loc with | some a => a | none => c.mem) := by
+      cases hloc : (secs sid).loc with
+      | none => simp
+      | some a => rw [hloc] at hf; simpa using hf
+    by_cases ha : (secs sid).alloc = true
+    · simp only [ha, if_true]
+      exact MemSorted.widen
+        (placeParts_mem cfg (secs sid) _ _ ⟨c.file, _, 0, 0⟩ _ hp ha) hstart (Nat.le_refl _)
+    · have ha' : (secs sid).alloc = false := by simpa using ha
+      simp only [ha', Bool.false_eq_true, if_false]
+      rw [placeParts_mem_nonalloc cfg (secs sid) _ _ ⟨c.file, _, 0, 0⟩ _ ha']
+      exact MemSorted.nil _ _ hstart
+
+theorem layoutWalk_mem (cfg : Config) (il : Nat → Bool) (sa : List (Nat × Nat)) (secs : Nat → Sec)
+    (c : Cursor) (evs : List Event) (hp : cfg.partialObj = false)
+    (hf : locsForward cfg il sa secs c evs = true) :
+    MemSorted c.mem (layoutWalk cfg il sa secs c evs).1.mem
+      (allocRecs secs (layoutWalk cfg il sa secs c evs).2) := by
+  induction evs generalizing c with
+  | nil => simp only [layoutWalk, allocRecs, allRecs, List.filter_nil, List.flatMap_nil]; exact MemSorted.nil _ _ (Nat.le_refl _)
+  | cons e es ih =>
+    rw [locsForward_cons, Bool.and_eq_true] at hf
+    simp only [layoutWalk]
+    have h1 := layoutStep_mem cfg il sa secs c e hp hf.1
+    have h2 := ih (layoutStep cfg il sa secs c e).1 hf.2
+    cases ho : (layoutStep cfg il sa secs c e).2 with
+    | none =>
+      rw [ho] at h1
+      exact MemSorted.widen h2 h1.1 (Nat.le_refl _)
+    | some pr =>
+      rw [ho] at h1
+      simp only at h1
+      by_cases ha : (secs pr.1).alloc = true
+      · simp only [ha, if_true] at h1
+        simp only [allocRecs, allRecs, List.filter_cons, ha, if_true, List.flatMap_cons]
+        exact MemSorted.append h1 h2
+      · have ha' : (secs pr.1).alloc = false := by simpa using ha
+        simp only [ha', Bool.false_eq_true, if_false] at h1
+        simp only [allocRecs, List.filter_cons, ha', Bool.false_eq_true, if_false]
+        exact MemSorted.widen h2 h1.1 (Nat.le_refl _)
+
+/-- **C04 `parts_disjoint_mem`.** For executables and shared objects (`partialObj = false`), if every user
+location (`--section-start`, script `. = X`, `name ADDR :`) is at or above the address cursor when it is
+applied (`locsForward`), the address ranges of all parts of allocated sections are pairwise disjoint and
+ascending in layout order. -/
+theorem parts_disjoint_mem (cfg : Config) (il : Nat → Bool) (secs : Nat → Sec) (evs : List Event)
+    (hp : cfg.partialObj = false)
+    (hf : locsForward cfg il (segmentAlignments il secs cfg.page evs) secs
+      { file := 0, mem := cfg.base, pending := none } evs = true) :
+    (allocRecs secs (layoutParts cfg il secs evs)).Pairwise (fun a b => a.memOff + a.memSize ≤ b.memOff) := by
+  unfold layoutParts
+  exact (layoutWalk_mem _ _ _ _ _ _ hp hf).2.2
+
+/-- Without the hypothesis the statement is false in the model (and in wild: known finding
+`layout:backwards-location`): a section whose `--section-start` lies inside the previous section. -/
+theorem parts_disjoint_mem_witness :
+    ¬ (allocRecs (fun sid => if sid = 0 then { (default : Sec) with alloc := true, hasData := true, parts := [⟨0, 0x3000⟩] }
+                      else { (default : Sec) with alloc := true, hasData := true, loc := some 0x1000, parts := [⟨0, 0x100⟩] })
+        (layoutParts ⟨false, 0, 12, 0, 99⟩ (fun _ => false)
+          (fun sid => if sid = 0 then { (default : Sec) with alloc := true, hasData := true, parts := [⟨0, 0x3000⟩] }
+                      else { (default : Sec) with alloc := true, hasData := true, loc := some 0x1000, parts := [⟨0, 0x100⟩] })
+          [.section 0, .section 1])).Pairwise (fun a b => a.memOff + a.memSize ≤ b.memOff) := by
+  decide
+
+/-! ## LOAD segments: `p_offset ≡ p_vaddr (mod p_align)` -/
+
+/-- **C04 `load_congruent`, step 1.** Whatever the cursor is, after the `SegmentStart` of a LOAD segment
+(`align_load_segment_start`, or the pending-location branch) file offset and address are congruent modulo the
+segment alignment `2^S` computed by `compute_segment_alignments` (`S` = page exponent if absent). -/
+theorem load_start_congruent (cfg : Config) (il : Nat → Bool) (sa : List (Nat × Nat)) (secs : Nat → Sec)
+    (c : Cursor) (id : Nat) (hl : il id = true) :
+    (layoutStep cfg il sa secs c (.segStart id)).1.file % 2 ^ ((sa.lookup id).getD cfg.page) =
+    (layoutStep cfg il sa secs c (.segStart id)).1.mem % 2 ^ ((sa.lookup id).getD cfg.page) := by
+  unfold layoutStep
+  simp only [hl, if_true]
+  split
+  · exact alignModuloN_mod _ _ _
+  · exact (alignModuloN_mod _ _ _).symm
+
+theorem cong_of_disp {x y F M n : Nat} (hn : 0 < n) (h : x + F = y + M) (hc : F % n = M % n) : x % n = y % n := by
+  have h1 : (x + F) % n = (y + M) % n := by rw [h]
+  rw [Nat.add_mod x F n, Nat.add_mod y M n, hc] at h1
+  have hx := Nat.mod_lt x hn
+  have hy := Nat.mod_lt y hn
+  have hm := Nat.mod_lt M hn
+  generalize x % n = a at *
+  generalize y % n = b at *
+  generalize M % n = r at *
+  by_cases ha : a + r < n
+  · by_cases hb : b + r < n
+    · rw [Nat.mod_eq_of_lt ha, Nat.mod_eq_of_lt hb] at h1; omega
+    · rw [Nat.mod_eq_of_lt ha, Nat.mod_eq_sub_mod (by omega), Nat.mod_eq_of_lt (by omega)] at h1; omega
+  · by_cases hb : b + r < n
+    · rw [Nat.mod_eq_of_lt hb, Nat.mod_eq_sub_mod (by omega), Nat.mod_eq_of_lt (by omega)] at h1; omega
+    · rw [Nat.mod_eq_sub_mod (by omega), Nat.mod_eq_of_lt (by omega), Nat.mod_eq_sub_mod (Nat.le_of_not_lt hb),
+        Nat.mod_eq_of_lt (by omega)] at h1; omega
+
+/-- One part of an allocated section with file contents keeps the displacement between address and file
+offset that the reference point `(F, M)` (the cursor after the LOAD start) has, provided its alignment does
+not exceed the segment alignment `2^S` to which `F ≡ M`. -/
+theorem placePart_displacement (cfg : Config) (s : Sec) (rp : Bool) (m S F M : Nat) (st : PartState) (p : PartIn)
+    (hp : cfg.partialObj = false) (ha : s.alloc = true) (hd : s.hasData = true)
+    (hS : min p.align m ≤ S) (hFM : F % 2 ^ S = M % 2 ^ S) (hst : st.mem + F = st.file + M) :
+    (placePart cfg s rp m st p).2.memOff + F = (placePart cfg s rp m st p).2.fileOff + M ∧
+    (placePart cfg s rp m st p).1.mem + F = (placePart cfg s rp m st p).1.file + M := by
+  have hfm : F % 2 ^ (min p.align m) = M % 2 ^ (min p.align m) := mod_pow_of_mod_pow hS hFM
+  have hc : st.mem % 2 ^ (min p.align m) = st.file % 2 ^ (min p.align m) :=
+    cong_of_disp (Nat.two_pow_pos _) hst hfm
+  have hdl := alignUpN_delta (min p.align m) st.mem st.file hc
+  unfold placePart
+  simp only [ha, hp, hd, if_true, Bool.false_eq_true, if_false]
+  constructor <;> omega
+
+/-- **C04 `load_congruent`, step 2 (`load_run_displacement`).** From a cursor with `file ≡ mem (mod 2^S)`
+(the state after a LOAD start), all parts of an allocated section with file contents (PROGBITS, or TLS NOBITS
+which wild backs with zero bytes) whose alignments are `≤ S` are placed at the SAME displacement
+`address - file offset`; the cursor keeps it. Hence `sh_offset - p_offset = sh_addr - p_vaddr` for every such
+section of the segment and `p_offset ≡ p_vaddr (mod 2^S)`. The hypothesis `hasData` is necessary: see
+`load_offsets_witness` (known finding `layout:nobits-not-last-in-load`). -/
+theorem load_run_displacement (cfg : Config) (s : Sec) (rp : Bool) (m S F M : Nat) (st : PartState) (ps : List PartIn)
+    (hp : cfg.partialObj = false) (ha : s.alloc = true) (hd : s.hasData = true)
+    (hS : ∀ p ∈ ps, min p.align m ≤ S) (hFM : F % 2 ^ S = M % 2 ^ S) (hst : st.mem + F = st.file + M) :
+    (∀ r ∈ (placeParts cfg s rp m st ps).2, r.memOff + F = r.fileOff + M) ∧
+    (placeParts cfg s rp m st ps).1.mem + F = (placeParts cfg s rp m st ps).1.file + M := by
+  induction ps generalizing st with
+  | nil => simp only [placeParts]; exact ⟨by simp, hst⟩
+  | cons p ps ih =>
+    simp only [placeParts]
+    have h1 := placePart_displacement cfg s rp m S F M st p hp ha hd (hS p (List.mem_cons_self ..)) hFM hst
+    have h2 := ih (placePart cfg s rp m st p).1 (fun q hq => hS q (List.mem_cons_of_mem _ hq)) h1.2
+    refine ⟨?_, h2.2⟩
+    intro r hr
+    rcases List.mem_cons.1 hr with h | h
+    · rw [h]; exact h1.1
+    · exact h2.1 r h
+
+/-- The hull (`min` of starts) of records that share one displacement has that displacement: what
+`layout_sections` / `compute_segment_layout` compute as `p_offset`, `p_vaddr` is again congruent. -/
+theorem hull_congruent (F M : Nat) (l : List Rec) (f0 m0 : Nat) (h0 : m0 + F = f0 + M)
+    (h : ∀ r ∈ l, r.memOff + F = r.fileOff + M) :
+    l.foldl (fun a p => min a p.memOff) m0 + F = l.foldl (fun a p => min a p.fileOff) f0 + M := by
+  induction l generalizing f0 m0 with
+  | nil => simpa using h0
+  | cons r rs ih =>
+    simp only [List.foldl_cons]
+    apply ih
+    · have := h r (List.mem_cons_self ..)
+      omega
+    · intro q hq; exact h q (List.mem_cons_of_mem _ hq)
+
+/-- A NOBITS section (no file contents) followed by a PROGBITS one inside the same LOAD: the second section's
+displacement differs from the first one's (model of the `layout:nobits-not-last-in-load` defect). -/
+theorem load_offsets_witness :
+    let secs : Nat → Sec := fun sid =>
+      if sid = 0 then { (default : Sec) with alloc := true, hasData := true, parts := [⟨0, 0x10⟩] }
+      else if sid = 1 then { (default : Sec) with alloc := true, nobits := true, hasData := false, parts := [⟨0, 0x100⟩] }
+      else { (default : Sec) with alloc := true, hasData := true, parts := [⟨0, 0x10⟩] }
+    let out := allRecs (layoutParts ⟨false, 0x400000, 12, 0, 99⟩ (fun _ => true) secs
+      [.segStart 0, .section 0, .section 1, .section 2, .segEnd 0])
+    ¬ (∀ r ∈ out, r.fileSize = 0 ∨ r.memOff + 0 = r.fileOff + 0x400000) := by
+  decide
+
+/-! ## Output order automaton: which segments are open at a section -/
+
+theorem startStopLoop_active (s : Sec) (ds : List SegDef) (as : List (Option Nat)) (k : Nat) (sd : List Nat)
+    (hlen : as.length = ds.length) :
+    (startStopLoop s ds as k sd).1.map Option.isSome = (ds.zipIdx k).map (fun p => includes p.1 p.2 s) := by
+  induction ds generalizing as k sd with
+  | nil =>
+    cases as with
+    | nil => simp [startStopLoop]
+    | cons a as => simp at hlen
+  | cons d ds ih =>
+    cases as with
+    | nil => simp at hlen
+    | cons a as =>
+      have hl : as.length = ds.length := by simpa using hlen
+      cases a with
+      | none =>
+        cases hinc : includes d k s with
+        | false => simp [startStopLoop, hinc, ih as (k + 1) sd hl]
+        | true => simp [startStopLoop, hinc, ih as (k + 1) (sd ++ [k]) hl]
+      | some id =>
+        cases hinc : includes d k s with
+        | false => simp [startStopLoop, hinc, ih as (k + 1) sd hl]
+        | true => simp [startStopLoop, hinc, ih as (k + 1) sd hl]
+
+theorem endRwLoad_length (defs : List SegDef) (st : OState) :
+    (endRwLoad defs st).active.length = st.active.length := by
+  unfold endRwLoad
+  split
+  · rfl
+  · split
+    · rfl
+    · simp
+
+/-- **C04 `aux_segments_cover` / `load_flags_match` (order automaton).** For executables and shared objects,
+after `add_section` of a primary section the open segment kinds are EXACTLY the definitions whose
+`should_include_section` accepts the section — for every table of segment definitions and every history:
+slot `k` is open iff `includes defs[k] k sec`. Instantiated with the LOAD rows this is `load_flags_match`
+(the open LOAD segment has exactly the section's W and X, and one is open iff the section is allocated and
+such a row exists); with the TLS / GNU_RELRO / DYNAMIC / INTERP / PHDR / GNU_EH_FRAME / NOTE rows it says the
+auxiliary segment is open over exactly the sections it describes. -/
+theorem aux_segments_cover (defs : List SegDef) (secs : Nat → Sec) (st : OState) (sid : Nat) (secondaries : List Nat)
+    (hprim : (secs sid).primary = none) (hlen : st.active.length = defs.length) :
+    (addSection defs false secs st sid secondaries).active.map Option.isSome =
+      defs.zipIdx.map (fun p => includes p.1 p.2 (secs sid)) := by
+  unfold addSection
+  simp only [Bool.false_eq_true, if_false, hprim, Option.isSome_none]
+  have hl1 : (if shouldEndRw defs st (secs sid) = true then endRwLoad defs st else st).active.length = defs.length := by
+    split
+    · rw [endRwLoad_length]; exact hlen
+    · exact hlen
+  generalize (if shouldEndRw defs st (secs sid) = true then endRwLoad defs st else st) = st1 at hl1 ⊢
+  by_cases hloc : (secs sid).loc.isSome = true
+  · simp only [hloc, if_true]
+    exact startStopLoop_active (secs sid) defs _ 0 _ (by simp [hl1])
+  · simp only [hloc, Bool.false_eq_true, if_false]
+    exact startStopLoop_active (secs sid) defs _ 0 _ hl1
+
+/-- `load_flags_match`, spelled out for one LOAD row. -/
+theorem load_flags_match (defs : List SegDef) (secs : Nat → Sec) (st : OState) (sid : Nat) (secondaries : List Nat)
+    (hprim : (secs sid).primary = none) (hlen : st.active.length = defs.length)
+    (k : Nat) (d : SegDef) (hk : defs[k]? = some d) (hload : d.load = true) :
+    ((addSection defs false secs st sid secondaries).active[k]?).map Option.isSome =
+      some ((secs sid).alloc && ((secs sid).w == d.w) && ((secs sid).x == d.x)) := by
+  have h := aux_segments_cover defs secs st sid secondaries hprim hlen
+  have h2 := congrArg (fun l => l[k]?) h
+  simp only [List.getElem?_map, List.getElem?_zipIdx, hk, Option.map_some, Nat.zero_add] at h2
+  rw [h2]
+  simp [includes, hload]
+
+/-- **C04 `no_wx_load`.** No row of `PROGRAM_SEGMENT_DEFS` is a LOAD that is both writable and executable, and a
+section needing W and X is included in no LOAD row (so `compute_segment_layout` rejects it). -/
+theorem no_wx_load : noWxB elfDefs = true ∧
+    ∀ s : Sec, s.w = true → s.x = true → ∀ p ∈ elfDefs.zipIdx, p.1.load = true → includes p.1 p.2 s = false := by
+  refine ⟨by decide, ?_⟩
+  intro s hw hx p hp hl
+  simp only [elfDefs, List.zipIdx_cons, List.zipIdx_nil, List.mem_cons, List.not_mem_nil, or_false] at hp
+  rcases hp with h|h|h|h|h|h|h|h|h|h|h|h|h <;> subst h <;> simp_all [includes]
+
+/-! ## `compute_segment_layout`: a segment record is the hull of what it absorbed -/
+
+/-- **C04 `segment_hull_contains`.** Absorbing a section layout into a segment record (`compute_segment_layout`
+does this for every open segment at every non-skipped section) makes the record contain the section's file and
+address ranges, only ever grows the record, and the record's alignment dominates the section's. -/
+theorem segment_hull_contains (r : SegRec) (l : Rec) :
+    (r.absorb l).fileStart ≤ l.fileOff ∧ l.fileOff + l.fileSize ≤ (r.absorb l).fileEnd ∧
+    (r.absorb l).memStart ≤ l.memOff ∧ l.memOff + l.memSize ≤ (r.absorb l).memEnd ∧
+    (r.absorb l).fileStart ≤ r.fileStart ∧ r.fileEnd ≤ (r.absorb l).fileEnd ∧
+    (r.absorb l).memStart ≤ r.memStart ∧ r.memEnd ≤ (r.absorb l).memEnd ∧
+    l.align ≤ (r.absorb l).align ∧ r.align ≤ (r.absorb l).align := by
+  unfold SegRec.absorb
+  simp only
+  omega
+
+/-- Model of the `tls:segment-start-misaligned` defect: `.tdata` (alignment 4) placed at an address that is
+4- but not 512-aligned, followed by a TLS section of alignment 512: the TLS segment (hull of both) starts at a
+non-multiple of its alignment 512. -/
+theorem tls_start_aligned_witness :
+    let secs : Nat → Sec := fun sid =>
+      if sid = 0 then { (default : Sec) with alloc := true, hasData := true, parts := [⟨0, 0x14⟩] }
+      else if sid = 1 then { (default : Sec) with alloc := true, tls := true, hasData := true, parts := [⟨2, 4⟩] }
+      else { (default : Sec) with alloc := true, tls := true, hasData := true, parts := [⟨9, 0x200⟩] }
+    let out := layoutParts ⟨false, 0x400000, 12, 0, 99⟩ (fun id => id == 0) secs
+      [.segStart 0, .section 0, .segStart 1, .section 1, .section 2, .segEnd 1, .segEnd 0]
+    let tls := ((⟨1, u64Max, 0, u64Max, 0, 0⟩ : SegRec).absorb (sectionLayout 0 ((out.lookup 1).getD []))).absorb
+      (sectionLayout 0 ((out.lookup 2).getD []))
+    tls.align = 9 ∧ tls.memStart % 2 ^ tls.align ≠ 0 := by
+  decide
+
+/-! ## Summary -/
+
+/-- The property at full strength on the model: the conclusions below for ALL inputs, without the three
+hypotheses. It is false (in the model and in wild). -/
+def C04_full : Prop :=
+  ∀ (cfg : Config) (il : Nat → Bool) (secs : Nat → Sec) (evs : List Event), cfg.partialObj = false →
+    (allocRecs secs (layoutParts cfg il secs evs)).Pairwise (fun a b => a.memOff + a.memSize ≤ b.memOff)
+
+theorem C04_full_witness : ¬ C04_full := by
+  intro h
+  exact parts_disjoint_mem_witness (h ⟨false, 0, 12, 0, 99⟩ (fun _ => false) _ [.section 0, .section 1] rfl)
+
+/-- **C04, the part that holds for all inputs** (gaps: (1) memory disjointness needs `locsForward` — user
+locations never move the address backwards; (2) equal file/address displacement inside a LOAD needs `hasData` —
+no NOBITS section before a section with contents in the same LOAD; (3) PT_TLS start alignment does not hold;
+(4) well-bracketing of the event list is only tested (`wellBracketedB` on every dump and on synthetic inputs),
+not proved). -/
+theorem C04_partial :
+    (∀ cfg il secs evs, ∀ r ∈ allRecs (layoutParts cfg il secs evs), RecAligned r) ∧
+    (∀ cfg il secs evs, (allRecs (layoutParts cfg il secs evs)).Pairwise (fun a b => a.fileOff + a.fileSize ≤ b.fileOff)) ∧
+    (∀ (cfg : Config) il secs evs, cfg.partialObj = false →
+      locsForward cfg il (segmentAlignments il secs cfg.page evs) secs { file := 0, mem := cfg.base, pending := none } evs = true →
+      (allocRecs secs (layoutParts cfg il secs evs)).Pairwise (fun a b => a.memOff + a.memSize ≤ b.memOff)) ∧
+    noWxB elfDefs = true :=
+  ⟨parts_aligned, parts_disjoint_file, parts_disjoint_mem, no_wx_load.1⟩
+
+-- Non-vacuity: a forward location satisfies the hypothesis of `parts_disjoint_mem`.
+example : locsForward ⟨false, 0x400000, 12, 0, 99⟩ (fun _ => true) [] 
+    (fun sid => if sid = 0 then { (default : Sec) with alloc := true, hasData := true, parts := [⟨4, 0x30⟩] }
+                else { (default : Sec) with alloc := true, hasData := true, loc := some 0x800000, parts := [⟨0, 0x100⟩] })
+    { file := 0, mem := 0x400000, pending := none } [.segStart 0, .section 0, .section 1, .segEnd 0] = true := by
+  decide
+
 end Wild.Layout
